@@ -563,6 +563,69 @@ def ob_install_world():
     return h
 
 
+def ob_install_targets_world():
+    """installed TARGETS on a scratch directory (the real Installer.do_install -> install_targets -> do_copyfile / do_copydir / set_mode): up to three targets in
+    sequence, each a file (executable or not), a DIRECTORY output, an optional output that does not exist, or nothing; one install_mode (none / rw-r--r-- /
+    rwxr-x---) and a symbolic-by-enumeration umask. Each target's outcome is its own business: what a plan creates - paths, kinds AND permission bits - is
+    the union of what each of its targets creates when installed alone (no state carried from one target to the next), everything lies beneath DESTDIR,
+    the log names it all and uninstall removes it"""
+    def h():
+        import os, tempfile, shutil, pickle, argparse, io, contextlib, stat
+        from mesonbuild import coredata
+        from mesonbuild.scripts import uninstall
+        top = tempfile.mkdtemp(prefix='c11t')
+        old_umask = os.umask(0o022)
+        try:
+            src, bld = os.path.join(top, 'src'), os.path.join(top, 'bld')
+            os.makedirs(os.path.join(bld, 'meson-logs')); os.makedirs(os.path.join(bld, 'html', 'img')); os.makedirs(src)
+            for rel, mode in (('prog', 0o755), ('notes.txt', 0o644), ('html/index.html', 0o644), ('html/img/a.png', 0o600)):
+                with open(os.path.join(bld, rel), 'w') as f: f.write(rel)
+                os.chmod(os.path.join(bld, rel), mode)
+            KINDS = [None, ('prog', 'bin', False), ('notes.txt', 'share/doc', False), ('html', 'share/doc', False), ('missing.lib', 'lib', True)]
+            plan = [KINDS[choose(len(KINDS), 'target %d' % i)] for i in range(3)]
+            plan = [p_ for p_ in plan if p_ is not None]
+            assume(len({p_[0] for p_ in plan}) == len(plan))        # a file is installed by one target
+            modestr = [None, 'rw-r--r--', 'rwxr-x---'][choose(3, 'install_mode')]
+            umask = [0o022, 0o077, 0o002][choose(3, 'install_umask')]
+            fm = FM(modestr, None, None) if modestr else FM()
+
+            def run(targets, tag):
+                dest = os.path.join(top, 'dest-' + tag); os.makedirs(dest)
+                d = BK.InstallData(src, bld, '/usr', 'lib', ['strip'], umask, ['meson', 'introspect'], coredata.version)
+                for name, outdir, optional in targets:
+                    d.targets.append(BK.TargetInstallData(os.path.join(bld, name), outdir, None, False, {}, set(), '', fm, '', 'linux', optional=optional, tag='runtime'))
+                datafile = os.path.join(bld, 'install-%s.dat' % tag)
+                with open(datafile, 'wb') as f: pickle.dump(d, f)
+                logname = os.path.join(bld, 'meson-logs', 'install-log-%s.txt' % tag)
+                opts = argparse.Namespace(dry_run=False, skip_subprojects='', tags=None, destdir=dest, quiet=True, only_changed=False, strip=False, wd=bld, profile=False, no_rebuild=True)
+                with open(logname, 'w', encoding='utf-8') as lf:
+                    MI.Installer(opts, lf).do_install(datafile)
+                got = set()
+                for p_, k in _tree(dest):
+                    got.add((p_, k, stat.S_IMODE(os.lstat(os.path.join(dest, p_)).st_mode)))
+                return dest, logname, got
+            dest, logname, joint = run(plan, 'joint')
+            alone = set()
+            for n, t in enumerate(plan):
+                alone |= run([t], 'alone%d' % n)[2]
+            leaf = lambda s_: {x for x in s_ if x[1] != 'dir' or x[0].startswith('usr/share/doc/html')}      # shared parent directories (usr, usr/share ...) are created once by whoever comes first
+            check({x[:2] for x in joint} == {x[:2] for x in alone}, 'a plan creates exactly what its targets create one by one')
+            check(leaf(joint) == leaf(alone), 'every installed file and directory has the permissions it gets when its target is installed alone')
+            for p_, k, m in joint:
+                if k == 'dir': check(m & 0o500 == 0o500, 'an installed directory can be entered by its owner')
+            logged = [l.strip() for l in open(logname) if not l.startswith('#')]
+            check({os.path.relpath(l, dest) for l in logged} == {x[0] for x in joint}, 'the install log names exactly what was created')
+            with contextlib.redirect_stdout(io.StringIO()):
+                uninstall.do_uninstall(logname)
+            check(_tree(dest) == set(), 'uninstall removes exactly what the install created')
+            cover('installed' if joint else 'nothing')
+            if any(t[0] == 'html' for t in plan) and len(plan) > 1: cover('directory-among-others')
+        finally:
+            os.umask(old_umask)
+            shutil.rmtree(top, ignore_errors=True)
+    return h
+
+
 def obligations(tier):
     q = tier == 'quick'
     out = []
@@ -574,6 +637,9 @@ def obligations(tier):
     out.append(Obligation('is-executable', ob_isexec(), dict(mode='9 symbolic permission bits', umask='022'), labels=('done',)))
     out.append(Obligation('selection', ob_selection(), dict(tags='none | runtime | runtime,devel', skip_subprojects='none | sub | *', entry='4 tags x 3 subprojects', dry_run='symbolic'),
                           labels=('admitted', 'skipped')))
+    out.append(Obligation('install-targets-world', ob_install_targets_world(), dict(real='Installer.do_install -> install_targets -> do_copyfile / do_copydir / set_mode / DirMaker / log, scripts.uninstall on a scratch directory',
+                          targets='up to 3 in sequence: executable file | plain file | DIRECTORY output | optional missing output | none', install_mode='none | rw-r--r-- | rwxr-x---', install_umask='022 | 077 | 002'),
+                          labels=('installed', 'directory-among-others'), optional_labels=('nothing',), max_paths=2000000))
     out.append(Obligation('install-world', ob_install_world(), dict(real='Installer.do_install, DirMaker, append_to_log, scripts.uninstall.do_uninstall on a scratch directory', entries='data (relative), data (absolute), header, emptydir, symlink, subdir: each declared or not, tag runtime | devel', tags='none | runtime | devel', dry_run='both', twice='both', destdir='with a space'), labels=('installed', 'dry-run', 'twice'), optional_labels=('nothing-selected',), max_paths=2000000))
     out.append(Obligation('copydir-world', ob_copydir_world(), dict(tree='directories a, b, c and a nested a/b (each empty or with one file) + a top-level file', exclude_directories='symbolic subset of the relative paths a, b, c, a/b', exclude_files='symbolic subset'), labels=('done',)))
     out.append(Obligation('copyfile-world', ob_copyfile_world(), dict(destination='absent | file | directory', source='file | live symlink | dangling symlink | absent', dry_run='symbolic', destination_dir='exists or not'),
